@@ -62,3 +62,15 @@ func (d *dir) ReadDir(n int) ([]hackpadfs.DirEntry, error) {
 	d.offset = end
 	return entries[start:end], nil
 }
+
+// Seek implements hackpadfs.SeekerFile. Like a directory handle of the source, seeking to the start rewinds the listing.
+func (d *dir) Seek(offset int64, whence int) (int64, error) {
+	if d.closed {
+		return 0, d.closedErr("seek")
+	}
+	if offset != 0 || whence != io.SeekStart {
+		return 0, &hackpadfs.PathError{Op: "seek", Path: d.name, Err: hackpadfs.ErrInvalid}
+	}
+	d.offset = 0
+	return 0, nil
+}
